@@ -18,24 +18,7 @@ Definition z_to_str (z : Z) : string :=
   if (z <? 0)%Z then String "-"%char (z_digits (S (Z.to_nat (Z.log2 (- z)))) (- z) EmptyString)
   else z_digits (S (Z.to_nat (Z.log2 z))) z EmptyString.
 
-(* repr(str) on Latin-1 text *)
-Definition hexdig (n : nat) : ascii := if (n <? 10)%nat then Ascii.ascii_of_nat (48 + n) else Ascii.ascii_of_nat (87 + n).
-Definition has_char (c : ascii) (s : string) : bool := substrb (String c EmptyString) s.
-Definition repr_char (q : ascii) (c : ascii) : string :=
-  let n := nat_of_ascii c in
-  if (n =? 92)%nat then "\\"
-  else if (n =? 9)%nat then "\t"
-  else if (n =? 10)%nat then "\n"
-  else if (n =? 13)%nat then "\r"
-  else if Ascii.eqb c q then String "\"%char (String c EmptyString)
-  else if ((n <? 32) || ((127 <=? n) && (n <=? 160)) || (n =? 173))%nat
-       then String "\"%char (String "x"%char (String (hexdig (n / 16)) (String (hexdig (n mod 16)) EmptyString)))
-  else String c EmptyString.
-Fixpoint sconcat_map (f : ascii -> string) (s : string) : string :=
-  match s with EmptyString => EmptyString | String c t => f c ++ sconcat_map f t end.
-Definition py_repr_str (s : string) : string :=
-  let q := if has_char "'"%char s && negb (has_char """"%char s) then """"%char else "'"%char in
-  String q (sconcat_map (repr_char q) s ++ String q EmptyString).
+(* repr(str): Str.py_repr_str *)
 (* str(list of str) *)
 Fixpoint join_sep (sep : string) (l : list string) : string :=
   match l with [] => EmptyString | [x] => x | x :: t => x ++ sep ++ join_sep sep t end.
